@@ -25,9 +25,46 @@ func c16ContainerShapes() []*shape {
 	}
 }
 
+// c16Values: containers of 0..2 elements whose pointer field is absent / present in every
+// combination (hand-built: the generic value enumeration caps nested domains).
+func c16Values(s *shape) []*gv {
+	elem := func(present bool) *gv {
+		p := &gv{Nil: true}
+		if present {
+			p = &gv{Elems: []*gv{{I: 0}}}
+		}
+		return &gv{Elems: []*gv{p, {I: 1}}}
+	}
+	wrapElem := func(e *gv, es *shape) *gv {
+		if es.K == "ptr" {
+			return &gv{Elems: []*gv{e}}
+		}
+		return e
+	}
+	var conts func(cs *shape) []*gv
+	conts = func(cs *shape) []*gv {
+		out := []*gv{{Nil: true}, {}}
+		for _, a := range []bool{false, true} {
+			out = append(out, &gv{Elems: []*gv{wrapElem(elem(a), cs.Elem)}})
+			for _, b := range []bool{false, true} {
+				out = append(out, &gv{Elems: []*gv{wrapElem(elem(a), cs.Elem), wrapElem(elem(b), cs.Elem)}})
+			}
+		}
+		return out
+	}
+	if s.K == "struct" {
+		var out []*gv
+		for _, c := range conts(s.Fields[0].S) {
+			out = append(out, &gv{Elems: []*gv{c}})
+		}
+		return out
+	}
+	return conts(s)
+}
+
 func c16ContainerCases(emit func(*engine.Case)) {
 	for si, s := range c16ContainerShapes() {
-		for vi := range s.values(0) {
+		for vi := range c16Values(s) {
 			emit(&engine.Case{Family: "mixed-presence-containers", Key: fmt.Sprintf("%s|%d", s, vi), Args: []string{"container", fmt.Sprint(si), fmt.Sprint(vi)}})
 		}
 	}
@@ -44,7 +81,7 @@ func runC16Container(c *engine.Case) *engine.Result {
 	fmt.Sscan(c.Args[1], &si)
 	fmt.Sscan(c.Args[2], &vi)
 	s := c16ContainerShapes()[si]
-	v := s.values(0)[vi]
+	v := c16Values(s)[vi]
 	gval := s.build(v).Interface()
 	// the value travels inside a map[string]interface{} environment, i.e. behind an interface
 	want, convertible := (&shape{K: "iface"}).refConv(&gv{Dyn: s, Elems: []*gv{v}}, 0)
